@@ -283,7 +283,7 @@ def repo_corpus(ctx, cfg, prop=None):
     ctx.cov["evaluations"] += summ["cases"]
     ctx.cov["traces_validated_against_impl"] += summ["cases"]
     ctx.cov["repo_test_executions_validated"] = summ["cases"]
-    mine = [v for v in r["viols"] if v["prop"] == prop]
+    mine = [v for v in r["viols"] if v["prop"] == prop or v["prop"] in also]
     if mine:
         cases = group_cases(tp)
         v = mine[0]
@@ -295,7 +295,7 @@ def repo_corpus(ctx, cfg, prop=None):
             raise Infra("candidate violation did not reproduce: %s" % v)
 
 
-def family_replay(ctx, fam, cfg, prop=None):
+def family_replay(ctx, fam, cfg, prop=None, also=()):
     """every member of the exhaustive SemMC.tla family (printed by TLC) is run on the real interpreter and judged by TLC"""
     from .checks_store import gen_lines
     prop = prop or ctx.prop
@@ -332,7 +332,7 @@ def family_replay(ctx, fam, cfg, prop=None):
     ctx.cov["traces_validated_against_impl"] += summ["cases"]
     ctx.cov["exhaustive_family_members_replayed"] = ctx.cov.get("exhaustive_family_members_replayed", 0) + summ["cases"]
     ctx.cov["samples"] += (summ.get("samples") or [])[:1]
-    mine = [v for v in r["viols"] if v["prop"] == prop]
+    mine = [v for v in r["viols"] if v["prop"] == prop or v["prop"] in also]
     if mine:
         cases = group_cases(tp)
         seen = set()
@@ -340,7 +340,7 @@ def family_replay(ctx, fam, cfg, prop=None):
             if v["what"] in seen or len(ctx.violations) >= 5:
                 continue
             lines = cases[v["id"]]
-            hits, rp = confirm_sem(ctx, cfg, lines, prop)
+            hits, rp = confirm_sem(ctx, cfg, lines, v["prop"])
             if hits:
                 seen.add(v["what"])
                 ctx.add_violation("%s: %s | (member of the exhaustive family) script: %s | balances %s" % (prop, v["what"], lines[0]["text"].replace("\n", " ")[:300], lines[0]["bal"]), rp)
